@@ -359,3 +359,79 @@ func ruleDCGLookahead(c *Ctx, r *Report) {
 	}
 	r.analysed(rule, fmt.Sprintf("%d sub-translations under \\+", n))
 }
+
+// ---------------------------------------------------------------------------
+// R-DCG-STEADFAST (C17; added after seed C17b): in the output of a translator, the LEFT operand of a
+// conjunction (','/2) or of an if-then ('->'/2) is never a translated sub-body whose remainder is the
+// caller's own `rest`. If it were, the right operand would have to consume nothing and the caller's
+// (possibly bound) remainder would constrain the left sub-body before the right one - a cut, a {}/1 goal,
+// a negation - has run: phrase(p, L, []) then commits to another parse than phrase(p, L, R), R = [].
+
+func ruleDCGSteadfast(c *Ctx, r *Report) {
+	const rule = "R-DCG-STEADFAST"
+	desc := "the left operand of a generated conjunction does not end at the caller's remainder"
+	comma, then := c.global("atomComma"), c.global("atomThen")
+	if comma == nil || then == nil {
+		r.undecided(rule, "anchor:atomComma", "-", "locate atomComma/atomThen", "not found")
+		return
+	}
+	n := 0
+	for _, fn := range c.LibFuncs() {
+		if funcPkg(fn) != c.Engine || fn.Signature.Recv() != nil || fn.Parent() != nil && false {
+			continue
+		}
+		sig := fn.Signature
+		if !(c.isDCGConstrSig(sig) || c.isDCGTranslatorSig(sig)) || len(fn.Params) != 4 {
+			continue
+		}
+		rest := ssa.Value(fn.Params[2])
+		seen := 0
+		eachInstr(fn, func(in ssa.Instruction) {
+			call, ok := in.(*ssa.Call)
+			if !ok {
+				return
+			}
+			callee := call.Call.StaticCallee()
+			if callee == nil || callee.Name() != "Apply" || callee.Signature.Recv() == nil || len(call.Call.Args) != 2 {
+				return
+			}
+			ld, ok := call.Call.Args[0].(*ssa.UnOp)
+			if !ok || ld.Op != token.MUL || (ld.X != ssa.Value(comma) && ld.X != ssa.Value(then)) {
+				return
+			}
+			elems := variadicElems(call.Call.Args[1])
+			if len(elems) != 2 || elems[0] == nil {
+				return
+			}
+			n++
+			seen++
+			key := fmt.Sprintf("%s/conj#%d", fname(fn), seen)
+			var offending ssa.Instruction
+			for _, l := range c.originSet(elems[0]) {
+				sub, _ := callOfValue(l)
+				if sub == nil || len(sub.Call.Args) != 4 {
+					continue
+				}
+				var ssig *types.Signature
+				if f := sub.Call.StaticCallee(); f != nil {
+					ssig = f.Signature
+				} else if !sub.Call.IsInvoke() {
+					ssig, _ = sub.Call.Value.Type().Underlying().(*types.Signature)
+				}
+				if ssig == nil || !(c.isDCGTranslatorSig(ssig) || c.isDCGConstrSig(ssig)) {
+					continue
+				}
+				g := &dcgGraph{c: c, fn: fn}
+				if g.norm(sub.Call.Args[2]) == rest {
+					offending = sub
+				}
+			}
+			if offending == nil {
+				r.ok(rule, key, c.at(in), desc, "the left operand is not a sub-body ending at rest", true)
+			} else {
+				r.bad(rule, fmt.Sprintf("%s/conj-left-ends-at-rest", fname(fn)), c.at(offending), desc, "the sub-body translated here ends at the caller's remainder and is then placed before another goal: a bound remainder constrains it before that goal runs (not steadfast)")
+			}
+		})
+	}
+	r.analysed(rule, fmt.Sprintf("%d generated conjunctions / if-thens in the DCG translators", n))
+}
